@@ -1,7 +1,7 @@
 """Window / guard clauses (GUARD + DOM instances) for the 10-block undo window."""
 import roles
 from guards import edge_forms, return_form, compare_form, lin
-from terms import origin, show, rvalue_origin, calls_in, control_deps, bool_edge, mentions
+from terms import origin, show, rvalue_origin, calls_in, control_deps, bool_edge, mentions, fdominates
 from tablerules import error_blocks, must_pass_on_success, self_fields, _leads_to_error_only
 
 WINDOW_CONST = "MAX_REORG_HISTORY_SIZE"
@@ -74,7 +74,7 @@ def clause_engine_reorg(R, F, CG):
     for key in ("above", "deep"):
         if found[key]:
             for w in writes:
-                R.ob(fn.sdominates(found[key][0], w.bb), "DOM-before", w.where(), "DOM-before|engine.reorg|%s" % key,
+                R.ob(fn.sdominates(found[key][0], w.bb) or fdominates(fn, found[key][0], w.bb), "DOM-before", w.where(), "DOM-before|engine.reorg|%s" % key,
                      "the %s check does not dominate the write" % key)
     # accepted *whenever* the target is not above the tip and inside the window: every refusal decision of engine.reorg is one
     # of the documented ones (block under construction, above the tip, outside the window) or a propagated error of a callee
